@@ -130,7 +130,8 @@ func (S *Scanner) expect(ch rune) {
 
 var prefix = []byte("line ")
 
-func (S *Scanner) scanComment(pos token.Position) {
+// scanComment returns false for a block comment that is not closed before the end of the file.
+func (S *Scanner) scanComment(pos token.Position) bool {
 	// first '/' already consumed
 
 	if S.ch == '/' {
@@ -155,7 +156,7 @@ func (S *Scanner) scanComment(pos token.Position) {
 						}
 					}
 				}
-				return
+				return true
 			}
 		}
 	} else {
@@ -166,12 +167,15 @@ func (S *Scanner) scanComment(pos token.Position) {
 			S.next()
 			if ch == '*' && S.ch == '/' {
 				S.next()
-				return
+				return true
 			}
 		}
+		S.error(pos, "comment not terminated")
+		return false
 	}
 
 	S.error(pos, "comment not terminated")
+	return true
 }
 
 func (S *Scanner) findNewline(pos token.Position) bool {
@@ -509,8 +513,11 @@ scanAgain:
 		case '/':
 			if S.ch == '/' || S.ch == '*' {
 				// comment
-				S.scanComment(pos)
-				goto scanAgain
+				if S.scanComment(pos) {
+					goto scanAgain
+				}
+				// an unclosed block comment is an illegal token: it must not swallow the
+				// rest of the file silently
 			} else {
 				tok = S.tokenMap.Type("/")
 			}
